@@ -8,7 +8,8 @@ import subprocess
 import sys
 import time
 
-REPO = "/repo"
+REPO = os.environ.get("SEED_REPO", "/repo")
+CHECKDIR = os.environ.get("SEED_VERIF", "/verif")
 
 
 def sh(cmd, timeout=3600, env=None):
@@ -46,7 +47,7 @@ def main():
         out["checks"] = {}
         for p in props.split(","):
             t0 = time.time()
-            rc, o = sh("cd /verif && ./check %s --tier %s" % (p, tier), timeout=7200)
+            rc, o = sh("cd %s && ./check %s --tier %s" % (CHECKDIR, p, tier), timeout=7200)
             lines = [l for l in o.splitlines() if l.startswith(("VIOLATION", "KNOWN-FINDING"))]
             viol = [l for l in lines if l.startswith("VIOLATION")]
             rec = {"exit": rc, "violation_lines": viol, "wall_s": round(time.time() - t0, 1)}
